@@ -317,8 +317,65 @@ fn date_slots() -> [Vec<&'static str>; 7] {
     ]
 }
 
+/// Layer K: lines that contain control characters (CR inside and at the end, TAB, NUL, vertical tab, form feed, NEL) against
+/// patterns that use `.`, `\s`, `$` and negated classes. The expected value is what the `regex` crate's default syntax
+/// gives for the pattern on the line (`.` matches everything but LF; `$` only at the end of the text), computed with a
+/// freshly compiled `regex::Regex` in the harness.
+fn control_chars_layer(col: &Collector) -> Vec<Failure> {
+    let mut out = Vec::new();
+    let pats = ["msg=(.*)", "^a(.*)z$", "msg=([^ ]*)", "k=(.+) end$", "v=(.)(.)", "w=(\\\\S+)", "(?s)msg=(.*)"];
+    let lines = ["msg=10%\r100%", "msg=x\r", "a\rz", "a \r\r z", "msg=a\tb\u{0}c", "k=1\r2 end", "k=1 end\r", "v=\r\u{b}", "v=\u{85}\u{c}", "w=a\rb c", "msg=", "az"];
+    let mut n = 0u64;
+    for p in pats {
+        // the pattern as the regex crate sees it (the definition text doubles the backslashes twice)
+        let plain = p.replace("\\\\", "\\");
+        let re = regex::Regex::new(&plain).expect("pattern");
+        let groups = re.captures_len() - 1;
+        let cols: Vec<String> = (1..=groups).map(|g| format!("line[{}] => c{} TEXT", g, g)).collect();
+        let def = format!("CREATE TABLE t(line = '{}', {});", p, cols.join(", "));
+        let tables = match sut::make_tables(&def) {
+            Ok(t) => t,
+            Err(e) => {
+                out.push(fail("K:definition-rejected".into(), format!("{} rejected: {}", def, e), json!({"layer": "K", "definition": def}), json!("accepted"), json!(e), 0));
+                continue;
+            }
+        };
+        let st = sut::parse(&format!("SELECT {} FROM t", (1..=groups).map(|g| format!("c{}", g)).collect::<Vec<_>>().join(", "))).unwrap();
+        for l in lines {
+            n += 1;
+            col.eval(1);
+            let want: Option<Vec<Option<String>>> = re.captures(l).map(|c| (1..=groups).map(|g| c.get(g).map(|m| m.as_str().to_string())).collect());
+            if want.is_some() {
+                col.nontrivial(h64(&("K", p, l)));
+            }
+            let got = sut::run_batch(&tables, &st, &[l]);
+            let got_row: Option<Vec<Option<String>>> = match &got {
+                Outcome::Ok(t) => t.rows.get(0).map(|r| r.iter().map(|v| match v { RVal::Text(s) => Some(s.clone()), _ => None }).collect()),
+                _ => None,
+            };
+            // a row all of whose columns are NULL is no row
+            let want_row = want.clone().filter(|r| r.iter().any(|x| x.is_some()));
+            if !matches!(&got, Outcome::Ok(_)) || got_row != want_row {
+                out.push(fail(
+                    format!("K:control-characters:{}", if got_row.is_none() { "row-missing" } else if want_row.is_none() { "unexpected-row" } else { "value-differs" }),
+                    format!("pattern {:?} on line {:?}: extracted {:?}, the regex crate gives {:?}", plain, l, got_row, want_row),
+                    json!({"layer": "K", "definition": def, "line": l}),
+                    json!(want_row),
+                    json!(got_row),
+                    n,
+                ));
+            }
+        }
+    }
+    col.layer("K-control characters against `.`, `$`, \\S and negated classes", n, true, json!({"patterns": pats.len(), "lines": lines.len()}));
+    out
+}
+
 pub fn run(ctx: &Ctx) -> i32 {
     let col = Collector::new();
+    for f in control_chars_layer(&col) {
+        col.fail(f);
+    }
     let thorough = ctx.tier == Tier::Thorough;
     let mut work: Vec<(Table, String, &'static str)> = Vec::new();
     // Layer A: scalar specs on P1
@@ -560,6 +617,9 @@ pub fn run(ctx: &Ctx) -> i32 {
 }
 
 pub fn replay(case: &J) -> Vec<Failure> {
+    if case["layer"].as_str() == Some("K") {
+        return control_chars_layer(&Collector::new()).into_iter().filter(|f| f.case == *case).collect();
+    }
     // the definition text and the line are the complete case: rebuild the Table by searching the (cheap) work list is not
     // needed - the reference extractor needs the structured table, so regenerate the work list and match on text
     let def = case["definition"].as_str().unwrap_or("").to_string();
